@@ -1,10 +1,12 @@
 /-
-  Props/C15_v2a.lean — property C15, v2 (cancellable) async_mutex, part a:
-  the hand-off through completion_forwarder, with and without stop requests, and the lock leak
-  of DESIGN §8 #3 (ONLY property theorems; the model is Proto/MutexV2.lean).
+  Props/C15_v2a.lean — property C15, v2 (cancellable) async_mutex, part a: what the property
+  predicates say, and the hand-off through completion_forwarder (ONLY property theorems; the model
+  is Proto/MutexV2.lean).
 
-  `*_safe` / `*_safe_partial` quantify over EVERY reachable state of the instance, i.e. every
-  schedule of every length of the threads' atomic steps.  The closure is computed and re-checked by
+  Every `v2_*_safe` theorem states the FULL property `safeFull` (mutual exclusion, at-most-once,
+  cancelled-never-owns, a granted waiter never gets done, FIFO, no deadlock, and at the end: every
+  started waiter completed exactly once, lock not leaked) for EVERY reachable state of the
+  instance, i.e. every schedule of every length of the threads' atomic steps.  The closure is computed and re-checked by
   Lean's kernel (`decide +kernel`).
 -/
 import UnifexModel.Proto.MutexV2
@@ -20,8 +22,8 @@ theorem v2_safe_spelled (cfg : Config) (s : St) (h : safe cfg s = true) :
     ∧ (∀ w ∈ s.ws, w.comps ≤ 1)
     -- a waiter cancelled by its stop request never was granted the lock, never completes with value
     ∧ (∀ w ∈ s.ws, w.canc = true → w.granted = false ∧ w.outcome ≠ 1)
-    -- set_done with the lock granted happens only when a stop request was pending between the
-    -- hand-off and the delivery of the re-scheduled completion (`hazard`)
+    -- a waiter to which the lock was granted never receives set_done (only the LEGACY pre-repair
+    -- forwarder, `fwdStop = true`, could do that, and only under the `hazard`)
     ∧ (∀ w ∈ s.ws, w.granted = true → w.outcome = 2 → cfg.fwdStop = true ∧ w.hazard = true)
     -- resume_'s "popped but already completed" branch is never taken
     ∧ s.deadBranch = 0
@@ -29,9 +31,9 @@ theorem v2_safe_spelled (cfg : Config) (s : St) (h : safe cfg s = true) :
     ∧ isPrefix s.values (s.arrivals.filter (fun i => !(getW s i).canc)) = true
     -- no deadlock
     ∧ (((sys cfg).next s).isEmpty = true → final cfg s = true)
-    -- at the end, PROVIDED no waiter ever had a stop request pending while the lock was granted to
-    -- it and its completion was still in flight: every started waiter completed exactly once,
-    -- nobody is queued, and the lock is not leaked (locked only if a party still holds it)
+    -- at the end (in `safe` guarded by `noHazard`; `safeFull` drops the guard, see
+    -- `v2_safeFull_spelled`): every started waiter completed exactly once, nobody is queued, and
+    -- the lock is not leaked (locked only if a party still holds it)
     ∧ (final cfg s = true → noHazard s = true →
         (∀ w ∈ s.ws, startedW w = true → w.comps = 1) ∧ s.queue = [] ∧ s.schedQ = [] ∧
         (s.locked = true → s.holders = 1)) := by
@@ -66,53 +68,46 @@ theorem v2_safe_spelled (cfg : Config) (s : St) (h : safe cfg s = true) :
         · simp [hl] at h
         · exact h
 
-/-- no stop request: the full property (no hazard ever, so every guarded clause is in force) -/
-theorem v2_handoff_safe : ∀ s, Reach (sys cfgHandoff) s → (safe cfgHandoff s && noHazard s) = true :=
+/-- `safeFull` = `safe` plus the end-state clause WITHOUT the `noHazard` guard: at the end every
+    started waiter completed exactly once, nobody is queued or scheduled, lock not leaked. -/
+theorem v2_safeFull_spelled (cfg : Config) (s : St) (h : safeFull cfg s = true) :
+    safe cfg s = true ∧
+    (final cfg s = true →
+      (∀ w ∈ s.ws, startedW w = true → w.comps = 1) ∧ s.queue = [] ∧ s.schedQ = [] ∧
+      (s.locked = true → s.holders = 1)) := by
+  unfold safeFull at h
+  simp only [Bool.and_eq_true, Bool.or_eq_true, Bool.not_eq_eq_eq_not, Bool.not_true] at h
+  refine ⟨h.1, fun hf => ?_⟩
+  have he : endOk s = true := by
+    rcases h.2 with h2 | h2
+    · simp [hf] at h2
+    · exact h2
+  unfold endOk at he
+  simp only [Bool.and_eq_true, List.all_eq_true, Bool.or_eq_true, Bool.not_eq_eq_eq_not, Bool.not_true,
+    decide_eq_true_eq, List.isEmpty_iff] at he
+  obtain ⟨⟨⟨ha, hb⟩, hc⟩, hd⟩ := he
+  refine ⟨?_, hb, hc, ?_⟩
+  · intro w hw hs
+    rcases ha w hw with h | h
+    · simp [hs] at h
+    · exact h
+  · intro hl
+    rcases hd with h | h
+    · simp [hl] at h
+    · exact h
+
+/-- hand-off to a queued waiter through the deferred scheduler -/
+theorem v2_handoff_safe : ∀ s, Reach (sys cfgHandoff) s → safeFull cfgHandoff s = true :=
   safe_of_check _ { coded with M := 337, W := 192 } 400 _ (by decide +kernel)
 
-theorem v2_leak_seq_safe_partial : ∀ s, Reach (sys cfgLeakSeq) s → safe cfgLeakSeq s = true :=
-  safe_of_check _ { coded with M := 71, W := 264 } 400 _ (by decide +kernel)
-
-/-- hand-off (inline scheduler) while another thread probes with try_lock: full property -/
-theorem v2_handoff_try_safe : ∀ s, Reach (sys cfgHandoffTry) s → (safe cfgHandoffTry s && noHazard s) = true :=
+/-- hand-off (inline scheduler) while another thread probes with try_lock -/
+theorem v2_handoff_try_safe : ∀ s, Reach (sys cfgHandoffTry) s → safeFull cfgHandoffTry s = true :=
   safe_of_check _ { coded with M := 157, W := 192 } 400 _ (by decide +kernel)
 
-/-- `lock not leaked` is FALSE for the code as it stands: in the sequential reproducer EVERY
-    execution that runs to the end leaks the lock (DESIGN §8 #3). -/
-theorem v2_leak_seq_always_leaks : ∀ s, Reach (sys cfgLeakSeq) s →
-    (!final cfgLeakSeq s || leaked cfgLeakSeq s) = true :=
-  safe_of_check _ { coded with M := 71, W := 264 } 400 _ (by decide +kernel)
-
-/-- the schedule of the witness (thread choices among the enabled ones; the run is sequential) -/
-def leakSchedule : List Nat := List.replicate 34 0
-
-/-- The lock leak, concretely: a reachable state (after the observable history below — the one the
-    real mutex produces in harness/rt/scn_c15.cpp:v2_leak_seq) in which waiter 0 completed with
-    set_done although the lock had been handed to it (it was never cancelled: `canc = false`), the
-    mutex is locked, nobody holds it, every thread has finished, NO step is enabled any more
-    (nobody can ever acquire the lock), and waiter 1 is still queued and never completes. -/
-theorem v2_lock_leak_witness :
-    ∃ ls s, runChoices (sys cfgLeakSeq) (sys cfgLeakSeq).init leakSchedule = some (ls, s) ∧
-      Reach (sys cfgLeakSeq) s ∧
-      ls.filterMap obsOf = ["T0 t0.value", "T1 lock0", "T1 lock1", "T0 t0.unlock", "T2 stop0",
-                            "T2 stop0.end", "T0 run", "T0 w0.done", "T0 t9.fail"] ∧
-      final cfgLeakSeq s = true ∧ s.locked = true ∧ s.holders = 0 ∧
-      (getW s 0).outcome = 2 ∧ (getW s 0).granted = true ∧ (getW s 0).canc = false ∧
-      s.queue = [1] ∧ (getW s 1).comps = 0 ∧ (sys cfgLeakSeq).next s = [] := by
-  have h : (match runChoices (sys cfgLeakSeq) (sys cfgLeakSeq).init leakSchedule with
-      | some (ls, s) =>
-        decide (ls.filterMap obsOf = ["T0 t0.value", "T1 lock0", "T1 lock1", "T0 t0.unlock", "T2 stop0",
-                            "T2 stop0.end", "T0 run", "T0 w0.done", "T0 t9.fail"]) &&
-        final cfgLeakSeq s && s.locked && decide (s.holders = 0) &&
-        decide ((getW s 0).outcome = 2) && (getW s 0).granted && !(getW s 0).canc &&
-        decide (s.queue = [1]) && decide ((getW s 1).comps = 0) && ((sys cfgLeakSeq).next s).isEmpty
-      | none => false) = true := by decide +kernel
-  cases hr : runChoices (sys cfgLeakSeq) (sys cfgLeakSeq).init leakSchedule with
-  | none => simp [hr] at h
-  | some p =>
-    obtain ⟨ls, s⟩ := p
-    simp only [hr, Bool.and_eq_true, decide_eq_true_eq, Bool.not_eq_true', List.isEmpty_iff] at h
-    obtain ⟨⟨⟨⟨⟨⟨⟨⟨⟨h1, h2⟩, h3⟩, h4⟩, h5⟩, h6⟩, h7⟩, h8⟩, h9⟩, h10⟩ := h
-    exact ⟨ls, s, rfl, runChoices_reach _ _ _ _ _ Reach.init hr, h1, h2, h3, h4, h5, h6, h7, h8, h9, h10⟩
+/-- the regression scenario of DESIGN §8 #3: the stop request arrives after the hand-off and before
+    the re-scheduled completion runs; the waiter still gets set_value, the next waiter is served,
+    the lock is not leaked -/
+theorem v2_leak_seq_safe : ∀ s, Reach (sys cfgLeakSeq) s → safeFull cfgLeakSeq s = true :=
+  safe_of_check _ { coded with M := 101, W := 264 } 400 _ (by decide +kernel)
 
 end Unifex.Props.C15
